@@ -123,6 +123,10 @@ def coq_block(block, state):
             else:
                 el = 'BNil'
             items.append('(If %s %s %s %s)' % (cnat(l), clist([cnat(r) for r in st[1]]), th, el))
+        elif st[0] == 'while':
+            # TIFA analyses the body once and reads the condition again (at the line of the `while`)
+            body = coq_block(st[2], state)
+            items.append('(once %s %s %s)' % (cnat(l), clist([cnat(r) for r in st[1]]), body))
         else:
             raise ValueError('not in the branch subset')
     if not block:
@@ -154,6 +158,25 @@ def correspondence(ctx):
         progs += [(p, False) for p in all_small_programs()]
         progs += [(gen_block(rng, 3, rng.randrange(1, 7), False), False) for _ in range(4000)]
         progs += [(gen_block(rng, 3, rng.randrange(1, 5), True), True) for _ in range(2000)]
+    # programs with while loops only (compared with the model on the once-unrolled program)
+    def while_block(depth, n):
+        out = []
+        for _ in range(n):
+            k = rng.randrange(10)
+            rs = [rng.randrange(NVARS) for _ in range(rng.choice([0, 1, 1, 2]))]
+            if k < 4 or depth <= 0:
+                out.append(('assign', rng.randrange(NVARS), rs))
+            elif k < 6:
+                out.append(('expr', rs or [rng.randrange(NVARS)]))
+            elif k < 8:
+                out.append(('if', rs, while_block(depth - 1, rng.randrange(1, 3)), while_block(depth - 1, rng.randrange(0, 2))))
+            else:
+                out.append(('while', rs, while_block(depth - 1, rng.randrange(1, 3))))
+        return out
+    for _ in range(150 if ctx.tier == 'quick' else 1500):
+        b = while_block(2, rng.randrange(1, 5))
+        if any(x[0] == 'while' for x in flatten(b)):
+            progs.append((b, True))
     # fixed: the known shape (for over a possibly empty iterable)
     progs.append(([('for', 2, [], [('assign', 0, [])]), ('expr', [0])], True))
     payload = []
@@ -165,6 +188,7 @@ def correspondence(ctx):
     res = vlib.run_impl('c09_impl.py', {'programs': payload}, timeout=1800)
     items = []
     idx = []
+    while_items, while_idx = [], []
     for pi, ((block, ext), pl, r) in enumerate(zip(progs, payload, res)):
         t = r['tifa']
         init = sorted([(l, n, lab) for lab, n, l in t['issues'] if lab in ('initialization_problem', 'possible_initialization_problem', 'read_out_of_scope')])
@@ -222,6 +246,15 @@ def correspondence(ctx):
                     if always_read and name in unused:
                         ctx.violation('used-reported-unused', {'code': pl['code'], 'variable': name, 'flags': flags, 'tifa': t['issues'],
                                                               'why': '%s is read after its last assignment on every execution but is reported unused' % name})
+        # ---- programs with while loops only: real TIFA = the model on the once-unrolled program (initialisation issues, as sets)
+        if ext and all(x[0] in ('assign', 'expr', 'if', 'while') for x in flatten(block)) and any(x[0] == 'while' for x in flatten(block)):
+            st = {'line': 0}
+            term = coq_block(block, st)
+            issues = clist(['(%s, %s, %s)' % (cnat(l), cnat(int(n[1:])), 'InitProblem' if lab != 'possible_initialization_problem' else 'PossibleInitProblem')
+                            for l, n, lab in init])
+            while_items.append('(%s, %s)' % (term, issues))
+            while_idx.append(pi)
+            ctx.count('while-program-compared-with-model')
         # ---- model vs implementation (branch subset only)
         if not ext:
             st = {'line': 0}
@@ -233,6 +266,12 @@ def correspondence(ctx):
                             for l, n, lab in init])
             items.append('(%s, %s, %s)' % (term, issues, clist([cnat(int(n[1:])) for n in unused if n.startswith('v')])))
             idx.append(pi)
+    badw = ctx.coq_cases('while', HEADER, while_items, 'check_tifa_set', chunk=200)
+    ctx.obligation('correspondence:while(real tifa_analysis on programs with while loops = the model on the once-unrolled program, %d programs)'
+                   % len(while_items), not badw, str([payload[while_idx[i]]['code'] for k, i, d in badw if k == 'mismatch'][:3]))
+    for kind, i, detail in badw[:3]:
+        ctx.broken.append(('correspondence', 'C09:while-once-unrolled', json.dumps({'code': payload[while_idx[i]]['code'] if kind == 'mismatch' else None,
+                                                                                   'tifa': res[while_idx[i]]['tifa'] if kind == 'mismatch' else None})[:1500]))
     bad = ctx.coq_cases('tifa', HEADER, items, 'check_tifa', chunk=200)
     for kind, i, detail in bad[:5]:
         ctx.broken.append(('correspondence', 'C09:model-vs-tifa', json.dumps({'code': payload[idx[i]]['code'] if kind == 'mismatch' else None,
